@@ -99,7 +99,7 @@ InvNames ==
    "C16_MsgSizeBound", "C16_InflightBound", "C16_NoAppendDuringSnapshot", "C16_UncommittedBound", "C16_DropIffOver",
    "C17_PreVoteBeforeTerm", "C17_PreVoteNoStateChange", "C17_LeaseHolds", "C17_CheckQuorumStepDown",
    "C19_SameOutputs",
-   "C20_NothingInvented", "C20_AtMostOncePerDelivery", "C20_ProposedAtLeaderOnce", "C20_DroppedMeansDropped"}
+   "C20_NothingInvented", "C20_AtMostOncePerDelivery", "C20_ProposedAtLeaderOnce", "C20_QueuedIntact", "C20_ForwardIntact", "C20_DroppedMeansDropped"}
 
 Holds(name) ==
   CASE name = "C01_CommittedStable" -> C01_CommittedStable
@@ -156,6 +156,8 @@ Holds(name) ==
     [] name = "C20_AtMostOncePerDelivery" -> C20_AtMostOncePerDelivery
     [] name = "C20_ProposedAtLeaderOnce" -> C20_ProposedAtLeaderOnce
     [] name = "C20_DroppedMeansDropped" -> C20_DroppedMeansDropped
+    [] name = "C20_QueuedIntact" -> C20_QueuedIntact
+    [] name = "C20_ForwardIntact" -> C20_ForwardIntact
 
 \* The other formulas assume a structurally well-formed log; on a malformed
 \* log only C03_WellFormed is reported for that state.
@@ -186,7 +188,7 @@ KFTags(nm) ==
 \* must yield the observed post-state (node record, disk record, return value, Ready contents).
 \* A disagreement is DRIFT (the specification misdescribes the code or the code changed its
 \* behaviour): reported and counted, never a property verdict.
-ConformActs == {"Tick", "Campaign", "Propose", "ProposeConfChange", "ReadIndex", "TransferLeader", "ForgetLeader",
+ConformActs == {"Tick", "Campaign", "Propose", "ProposeConfChange", "ProposeBatch", "ReadIndex", "TransferLeader", "ForgetLeader",
                 "ReportUnreachable", "ReportSnapshot", "Deliver", "Ready", "PersistEntries", "PersistHardState",
                 "PersistSnapshot", "Send", "Apply", "Advance", "AppendThread", "CrashInAppend", "ApplyThread",
                 "Snapshot", "Compact", "Crash", "Restart", "Boot"}
